@@ -420,10 +420,10 @@ CLI_VALUES = {"append": [["cli_a"], ["cli_a", "cli b"], ["./c/../d"], ["F77"]],
               "store": ["cli_x", "./cli/dir", "cli y"]}
 
 
-def gen_cli(rng, spec, prefer=None):
+def gen_cli(rng, spec, prefer=None, force=False):
     """a command line: list of (dest, value) in parser order"""
     chosen = set()
-    if prefer is not None and rng.random() < 0.8:
+    if prefer is not None and (force or rng.random() < 0.8):
         chosen.add(prefer)
     for d, _, _ in spec:
         if rng.random() < 0.12:
@@ -517,6 +517,8 @@ class Ctx:
         r["toml"] = parsed_table(toml_text) if toml_text is not None else None
         r["cfg"] = parsed_table(cfg, config=True) if cfg is not None else None
         r["out"] = im.diffed(im.run(file_text(lines), toml_text, cfg, cli, variant, self.spec))
+        if spec[0] == "cli":
+            r["clionly"] = self.cli_only(cli, variant)
         self.raws.append(r)
         return r
 
@@ -524,8 +526,14 @@ class Ctx:
         im = self.impl
         cwd, _, d = im.where(r["variant"])
         sp = r["spec"]
-        spec = "SNone" if sp[0] == "none" else (
-            f"(SIll {sp[1]} {coq_str(sp[2])})" if sp[0] == "ill" else f"(SUnk {sp[1]} {coq_str(asc(sp[2]))})")
+        if sp[0] == "none":
+            spec = "SNone"
+        elif sp[0] == "ill":
+            spec = f"(SIll {sp[1]} {coq_str(sp[2])})"
+        elif sp[0] == "unk":
+            spec = f"(SUnk {sp[1]} {coq_str(asc(sp[2]))})"
+        else:
+            spec = f"(SCli {iout_coq(r['clionly'])})"
         inp = (f"(mkinput {strs_coq(r['lines'])} {core.coq_opt(r['toml'], kv_coq)} {core.coq_opt(r['cfg'], kv_coq)} "
                f"{kv_coq(cli_pv(r['cli']))} {coq_str(str(cwd))} {coq_str(d)} {coq_str(im.ford_dir)})")
         return f"(mkr {inp} {iout_coq(r['out'])} {spec})"
@@ -602,7 +610,24 @@ MALFORMED_MD = [
     ["a-b: dash key", "a_b: underscore key", "9: digit key"],
     [": empty key"],
     ["project: {!not an include"],
+    ["summary: a", "  two blanks", "author: x"],
+    ["summary: a", "   three blanks", "author: x"],
+    ["summary: a", "     five blanks", "author: x"],
+    ["summary: a", "\tb", "author: x"],
+    ["summary: a", " author: one blank key"],
+    ["summary: a", "    author: looks like a key"],
 ]
+
+INDENTS = ["", "", "", " ", "  ", "   ", "    ", "     ", "\t"]
+HEADS = ["project", "summary", "src_dir", "graph", "max_frontpage_items", "alias", "Author", "foo", "a-b", "", "text only",
+         "---", "...", "-", "two words", "extra_filetypes", "display"]
+COLONS = [":", ": ", ":  ", " : ", "", "::", ":\t"]
+VALUES = ["", "x", "a b", " padded ", "true", "4", "a = b", "cpp //", "k: v", "Public"]
+
+
+def fuzz_lines(rng):
+    return [rng.choice(INDENTS) + rng.choice(HEADS) + rng.choice(COLONS) + rng.choice(VALUES)
+            for _ in range(rng.choice([1, 2, 3, 4, 6]))]
 
 
 def generate(ctx, chk):
@@ -619,11 +644,14 @@ def generate(ctx, chk):
             picked += [rng.choice(vals)]
         else:
             picked = vals
-        for a in picked:
+        for j, a in enumerate(picked):
             variant = rng.choice([0, 1, 2])
             variant2 = rng.choice([v for v in (0, 1, 2) if v != variant])
             with_cli = rng.random() < 0.5
             cli = gen_cli(rng, ctx.spec, name if name in ctx.cli_dests else None) if with_cli else []
+            if name in ctx.cli_dests and j < 2:      # the option itself on the command line, and not
+                with_cli = True
+                cli = gen_cli(rng, ctx.spec, name, force=True) if j == 0 else []
             ctx.run_group([(name, a)], cli, variant, variant2, rng.choice(PRE_POST))
             if not quick:
                 ctx.run_group([(name, a)], gen_cli(rng, ctx.spec, name if name in ctx.cli_dests else None) if not with_cli else [],
@@ -659,6 +687,9 @@ def generate(ctx, chk):
     for lines in MALFORMED_MD:
         for pre, post in ([([], [])] if quick else PRE_POST[:3]):
             ctx.run_raw(list(pre) + lines + list(post), None, None, [], rng.choice([0, 1, 2]), what="metadata shapes")
+    for _ in range(150 if quick else 4000):
+        pre, post = rng.choice(PRE_POST)
+        ctx.run_raw(list(pre) + fuzz_lines(rng) + list(post), None, None, [], rng.choice([0, 1, 2]), what="metadata fuzz")
     # (6) fpm.toml next to markdown metadata; fpm.toml without the table
     ctx.run_raw(["project: from md"], [("project", "from toml")], None, [], 0, what="both files")
     ctx.run_raw(["project: from md"], None, None, [], 1, toml_text='name = "demo"\n', what="fpm.toml without table")
@@ -688,7 +719,7 @@ def generate(ctx, chk):
         use_toml = rng.random() < 0.5
         cli = gen_cli(rng, ctx.spec, rng.choice(ks) if rng.random() < 0.7 else None)
         ctx.run_raw(lines, file_kvs if use_toml else None, cfg_kvs if (cfg_kvs or rng.random() < 0.2) else None,
-                    cli, rng.choice([0, 1, 2]), what="precedence chain")
+                    cli, rng.choice([0, 1, 2]), ("cli",), what="precedence chain")
     # (8) command line conversions that can fail
     ctx.run_raw([], None, None, [("external", ["nourl"])], 0, what="cli external without '='")
     ctx.run_raw(["external: a = b"], None, None, [("external", ["c = d"])], 0, what="cli external replaces")
@@ -774,6 +805,7 @@ def judge_all(chk, ctx):
         return
     stats = {"groups": len(ctx.groups), "raw": len(ctx.raws), "unmodelled": 0, "regions": {}}
     seen_regions = set()
+    pending = []          # violations; the ones with a failing input are reported first
     for cases, res, label in ((ctx.groups, gres, "group"), (ctx.raws, rres, "raw")):
         for idx, c in enumerate(cases):
             code = res.get(idx, 0)
@@ -782,25 +814,31 @@ def judge_all(chk, ctx):
                 continue
             chk.traces += 5 if label == "group" else 1
             if code == MALFORMED:
-                chk.violation("broken-correspondence", {"what": "harness encoders disagree with enc_md/enc_toml "
-                                                        "or the options are not well typed", "case": c}, False)
+                pending.append(("broken-correspondence", {"what": "harness encoders disagree with enc_md/enc_toml "
+                                                          "or the options are not well typed", "case": c}, False))
                 continue
             mismatch, viol, region = code & 1, code & 2, code >> 2
+            outside = False
             if viol:
                 chk.disagreements += 1
                 key = REGIONS.get(region)
                 stats["regions"][key or "none"] = stats["regions"].get(key or "none", 0) + 1
                 if key is None or not chk.known(key, True):
-                    chk.violation("failing-input", {"what": "the formats / command line / working directories disagree, "
-                                                    "or an ill-typed value or unknown key is not handled as the property demands",
-                                                    "case": c, "code": code, "region": region}, True)
+                    outside = True
+                    pending.append(("failing-input", {
+                        "what": "the formats / command line / working directories disagree, or an ill-typed value "
+                                "or unknown key is not handled as the property demands",
+                        "case": c, "code": code, "region": region,
+                        "meaning": "bit0 model!=impl, bit1 property violated, bits>=2 region"}, True))
                 else:
                     seen_regions.add(key)
-            if mismatch:
-                chk.violation("failing-input" if (viol and REGIONS.get(region) is None) else "broken-correspondence",
-                              {"what": "model and implementation disagree", "case": c, "code": code,
-                               "meaning": "bit0 model!=impl, bit1 property violated, bits>=2 region"},
-                              bool(viol and REGIONS.get(region) is None))
+            if mismatch and not outside:
+                pending.append(("broken-correspondence", {"what": "model and implementation disagree", "case": c,
+                                                          "code": code,
+                                                          "meaning": "bit0 model!=impl, bit1 property violated, bits>=2 region"},
+                                False))
+    for kind, payload, found in sorted(pending, key=lambda x: not x[2]):
+        chk.violation(kind, payload, found)
     for key in REGIONS.values():
         if key not in seen_regions:
             chk.known(key, False)
